@@ -156,6 +156,7 @@ var confusable = [][]string{
 	{"reports/2024", "reports_2024", "reports-2024", "reports\\2024", "reports%2F2024", "reports 2024", "reports+2024", "Reports/2024", "reports/2024 "},
 	{"a/b/c", "a\\b\\c", "a/b\\c", "a_b_c", "a\\b/c", "A/B/C"},
 	{"x.txt", "X.TXT", "x%2Etxt", "x.txt.", "x.txt ", "x_txt"},
+	{"report", "report.part", "report.tmp", "report.new", "report~", ".report.swp"},
 }
 
 // GenPlan generates the plan for one run of a property.
@@ -275,6 +276,9 @@ func (g *G) genC01(p *Plan) {
 			if op.Body.Size > 300000 {
 				op.Body.Size = g.rng.Intn(70000)
 			}
+			if g.chance(0.3) {
+				op.Status = "sas:" + g.pick("200", "201", "204", "202", "0", "99", "1000", "-1", "abc", "", "404", "2147483648")
+			}
 		case r < 8:
 			op.Chunks = g.chunks(op.Body.Size)
 			if op.Meta != nil {
@@ -311,6 +315,8 @@ func (g *G) genC01(p *Plan) {
 			rd := Op{K: g.pick("get", "get", "head"), B: c.Buckets[0], Key: keys[g.rng.Intn(len(keys))]}
 			if g.chance(0.2) {
 				rd.API = true
+			} else if g.chance(0.12) {
+				rd.Status = "overrides" // response-content-type and friends: this answer only
 			}
 			if g.chance(0.3) {
 				rd.Faults = append(rd.Faults, Fault{Kind: "slowreader", N: g.n(1, 3)})
@@ -804,8 +810,14 @@ func (g *G) genC05(p *Plan, listing bool) {
 			op = Op{K: "get", B: b, Key: key()}
 		case r < 82:
 			op = Op{K: "get", B: b, Key: key(), Ver: g.verRef()}
+			if g.chance(0.12) {
+				op.Status = "overrides"
+			}
 		case r < 90:
 			op = Op{K: "head", B: b, Key: key(), Ver: g.verRef()}
+			if g.chance(0.12) {
+				op.Status = "overrides"
+			}
 		case r < 95:
 			if state == "Enabled" {
 				op = Op{K: "setver", B: b, Status: "Suspended"}
